@@ -613,6 +613,8 @@ class Engine:
             nm = "cell%s%s" % (cell[1], "".join("." + str(k[1]) for k in path))
             self.store_cell(st, cell, path, ("phi", item.path, header, nm, self.load_cell(st, cell, path)))
         trace.append(("loop", item.path, header, tuple(sorted(names[l] for l in assigned if (frame, l) in st))))
+        trace.append(("phis", item.path, header, tuple(((frame, l), st[(frame, l)]) for l in sorted(assigned)
+                                                       if isinstance(st.get((frame, l)), tuple) and st[(frame, l)][0] == "phi")))
 
     # ------------------------------------------------------------ calls
     def should_inline(self, callee_item, depth):
